@@ -30,6 +30,18 @@ CHECKS = {
              "Reaction.string stubbed on instances (message formatting); 'numerical integration keeps invariants to tolerance' is delegated "
              "to LSODA/CVODE and not claimed; one known finding (circular eliminations for >=2 preferred substances)",
         technique=Z + "; sympy->z3 translation validation of the generated eliminations (z3 LRA)", ref="DESIGN.md section 5 C05"),
+    "C15": dict(
+        engine="Z", category="other",
+        text="bounded symbolic verification: split/substance_participation are executed on reactions whose species are symbolic indices "
+             "(every feasible reaction graph within the bound is visited through solver-decided forks and compared with a union-find oracle); "
+             "categorize_substances, identify_equilibria, per_reaction_effect_on_substance run on symbolic integer coefficients and z3 proves "
+             "the returned sets equal their definitions on every path; subset/+/+=/== with a symbolic predicate; upper_conc_bounds with "
+             "symbolic initial concentrations: z3 (LRA) proves bound = min(total/atoms) and that no non-negative state with the same "
+             "element totals exceeds it",
+        note="split: <= 3 canonical disjoint + <= 3 symbolic reactions over <= 7 keys (each path is one concrete graph: bounded exhaustive); "
+             "coefficients 0..2; generated formula systems for the bounds; decompose_yields (numpy lstsq) and float coercion of "
+             "as_per_substance_array are outside",
+        technique=Z, ref="DESIGN.md section 5 C15"),
     "C17": dict(
         engine="Z", category="other",
         text="bounded symbolic verification: the seven real closed-form functions are executed on z3-backed dual numbers (value and "
